@@ -33,7 +33,7 @@ def obj_branch(r, names, ap=None):
 def composition(r):
     """Returns (label, allOf branch list)."""
     k = r.random()
-    if k < 0.35:
+    if k < 0.27:
         n = r.randrange(2, 4)
         shared = r.sample(PROPS, r.randrange(0, 2))
         out = []
@@ -47,7 +47,7 @@ def composition(r):
                 b["properties"][s_] = r.choice([{"type": "integer"}, {"type": "integer", "minimum": 0}, {}])
             out.append(b)
         return "objects", out
-    if k < 0.5:
+    if k < 0.42:
         # two branches give the same OPTIONAL member incompatible types, a third one requires it
         pn = r.choice(PROPS)
         t1, t2 = r.sample([{"type": "string"}, {"type": "integer"}, {"type": "boolean"}, {"type": "array", "items": {"type": "string"}}], 2)
@@ -61,15 +61,15 @@ def composition(r):
         if r.random() < 0.3:
             out.append(obj_branch(r, [x for x in r.sample(PROPS, 2) if x != pn]))
         return "conflict", out
-    if k < 0.6:
+    if k < 0.52:
         return "ref+object", [{"$ref": "#/definitions/Base"}, obj_branch(r, r.sample(PROPS, r.randrange(1, 3)))] + \
             ([obj_branch(r, r.sample(PROPS, 1))] if r.random() < 0.3 else [])
-    if k < 0.7:
+    if k < 0.62:
         vals = ["a", "b", "c", "d", "e"]
         return "enums", [{"type": "string", "enum": r.sample(vals, r.randrange(2, 5))},
                          {"type": "string", "enum": r.sample(vals, r.randrange(2, 5))}] + \
             ([{"enum": r.sample(vals, 3)}] if r.random() < 0.3 else [])
-    if k < 0.75:
+    if k < 0.67:
         nums = [0.5, 1, 2.5, 10, 4, -3, 7.25]
         a = {"type": r.choice(["number", "number", "integer"]), "enum": r.sample(nums, r.randrange(3, 6))}
         if a["type"] == "integer":
@@ -78,14 +78,14 @@ def composition(r):
         if r.random() < 0.5:
             return "num_enums_ref", [{"$ref": "#/definitions/Scale"}, b]
         return "num_enums", [a, b]
-    if k < 0.78:
+    if k < 0.70:
         # const next to type / enum / const, on either side of the merge
         vals = ["a", "b", "c"]
         c1 = {"const": r.choice(vals)}
         other = r.choice([{"type": "string"}, {"type": "string", "enum": r.sample(vals, 2)}, {"const": r.choice(vals)},
                           {"type": "string", "minLength": 1}])
         return "consts", [other, c1] if r.random() < 0.5 else [c1, other]
-    if k < 0.8:
+    if k < 0.72:
         return "types", [{"type": r.choice([["string", "integer"], ["integer", "null"], "integer"])},
                          {"type": r.choice([["integer", "boolean"], "integer", ["string", "null"]])}]
     if k < 0.86:
@@ -101,7 +101,7 @@ def composition(r):
             b["additionalItems"] = r.choice([False, {"type": "string"}])
         if r.random() < 0.8:
             b["minItems"] = b["maxItems"] = n2
-        if r.random() < 0.35:
+        if r.random() < 0.45:
             # ... or against an ordinary array whose single item schema admits every position
             a = {"type": "array", "items": r.choice([{"type": ["string", "integer", "boolean"]}, {}, {"type": "integer"}])}
             if "additionalItems" not in b and r.random() < 0.6:
